@@ -5,6 +5,7 @@ import (
 	"fmt"
 	"io"
 	"math/rand"
+	"net"
 	"runtime"
 	"runtime/debug"
 	"strings"
@@ -489,6 +490,7 @@ func init() {
 				// (a frame that consistently declares a huge body is legitimately waited and allocated
 				// for: zeroing gigabytes takes longer than the probe's patience)
 				if len(data) < 1<<20 && modelAlloc < 1<<24 {
+					crumb("bytes sent to a real server connection, then the client's half-close", map[string]interface{}{"proto": proto, "input": canonN(600, data), "what": what})
 					_, ending := feedPrefixAndClose(st, "main", data, 2*time.Second)
 					rep.Distribution["server-probe:"+ending]++
 					if ending == "hang" {
@@ -629,6 +631,27 @@ func init() {
 		}
 		if len(rep.Samples) == 0 {
 			rep.Samples = append(rep.Samples, map[string]interface{}{"grid_example": "op=1 key=5 ext=8 total=0 (contradictory)", "text_lines": lines[:6]})
+		}
+		// a client that connects and goes away without a single byte, on a stack without L2 and on one
+		// with: the server goes on serving others
+		for _, cfg := range []StackCfg{{Orca: "l1only", Locked: "none", Bits: 0, L1: "std"}, {Orca: "l1l2", Locked: "mr", Bits: 2, L1: "std"}} {
+			crumb("a client connects and disconnects without sending a byte", map[string]interface{}{"stack": cfg.String()})
+			st := GetStack(cfg)
+			for i := 0; i < 3; i++ {
+				c, err := net.Dial("unix", st.MainSock)
+				must(err)
+				c.Close()
+			}
+			time.Sleep(50 * time.Millisecond)
+			cl := st.Dial("main", "bin")
+			out, e := cl.Feed(Command{Kind: "version", Opaque: 5}.Encode("bin"), 2*time.Second)
+			cl.Close()
+			rep.Evaluations++
+			rep.Distribution["zero-byte-connections"]++
+			if e != "eof" {
+				rep.Violations = append(rep.Violations, Violation{What: fmt.Sprintf("%s: after three clients connected and left without sending a byte, a version request ended %q (%s)", cfg, e, canonN(64, out)), Signature: "zero-byte-client",
+					Replay: map[string]interface{}{"stack": cfg.String()}})
+			}
 		}
 		// containment: well-behaved connections on private keys, each judged as if it were alone,
 		// while four other connections keep sending malformed input, are cut off and come back
